@@ -3,7 +3,7 @@ from __future__ import annotations
 
 from .loader import Program
 from .report import Run
-from .rules import crsguard
+from .rules import api, cog, crsguard, valueobj
 
 ALL = [f"C{n:02d}" for n in range(1, 21)]
 
@@ -24,3 +24,52 @@ def C01(prog: Program, run: Run, tier: str) -> None:
     run.floor("R-WRAPNAME|", 16)
     run.floor("R-RETAG|", 40)
     run.notes.append("R-CRSGUARD table: " + "; ".join(f"{k}: {v}" for k, v in sorted(crsguard.TABLE.items())))
+
+
+def C19(prog: Program, run: Run, tier: str) -> None:
+    classes = None if tier == "thorough" else valueobj.VALUE_CLASSES
+    run.add(
+        valueobj.rule_valueobj(prog, classes),
+        "R-VALUEOBJ per value class: EQHASH hash fields are implied equal on every True path of __eq__ (modulo "
+        "functional dependencies derived from __init__); EQTOKEN every field __eq__ needs feeds __dask_tokenize__; "
+        "TOKENPURE no id()/uuid/random/time in tokens; EQIDENT no field compared by identity; PICKLEKEYS "
+        "__getstate__ keys = keys consumed by __setstate__/__init__ and cover __eq__ fields; EQCOMPLETE every "
+        "non-cache state field is compared or determined",
+    )
+    run.add(
+        valueobj.rule_cache(prog),
+        "R-CACHE KEYCOMPLETE key function reads every parameter; KEYCANON every key is a canonical primitive; IDPIN "
+        "objects whose id() is a cache key are pinned by a plain never-cleared dict cache; ORDER source/target "
+        "pass-through transformer_to_crs -> _make_crs_transform -> Transformer.from_crs",
+    )
+    run.floor("R-VALUEOBJ|", 45)
+    run.floor("R-CACHE|", 18)
+
+
+def C06(prog: Program, run: Run, tier: str) -> None:
+    run.add(
+        cog.rule_mpu(prog),
+        "R-MPU ORDER every concatenation / constructor slot / insert in merge, flush_rhs, flush and the finaliser respects "
+        "stream position (left_data < parts < data, lhs < rhs, header left); PAIRING each write with self.nextPartId "
+        "consumes one id and one credit and records its receipt, append logs what it stores; RESERVE a spill never takes "
+        "the last credit (linear bound on the early-return test over the value set of the reserve); MINSIZE every "
+        "non-final write is behind a comparison with min_write_sz (maybe_write guard, can_flush returns, _flush_data only "
+        "behind can_flush); STRIDE part-id stride equals credits per chunk, first id min_part+1, sub-stream advance",
+    )
+    run.floor("R-MPU|", 34)
+
+
+def C18(prog: Program, run: Run, tier: str) -> None:
+    run.add(
+        cog.rule_lock(prog),
+        "R-LOCK CALLUNDERLOCK upload initiation only inside a lock region; DCL state predicate re-evaluated inside the "
+        "region and the initiation control-dependent on not-started; PUBLISH new id set on the shared variable before "
+        "release; ENSURE every write_part/finalise receiver comes from _ensure_init() on every path; LOCKSINGLETON/LOCKKEY "
+        "the local lock provider always returns the registered lock",
+    )
+    run.add(
+        cog.rule_accessor(prog),
+        "R-ACCESSOR limit properties read their own configuration key; constant-folded default max > min",
+    )
+    run.floor("R-LOCK|", 8)
+    run.floor("R-ACCESSOR|", 10)
